@@ -40,7 +40,7 @@ def gen_and_replay(ck, module, constants, timeout=900, replay_args=None, workers
 
 @check("C01")
 def c01(ck):
-    ck.rule = ("every program of <= MaxSize nodes over the GenC01 grammar (10 leaves, 6 unary, 10 binary, "
+    ck.rule = ("every program of <= MaxSize nodes over the GenC01 grammar (10 leaves, 7 unary, 10 binary, "
                "5 ternary forms of def/let/if/do/fn/&/quote/calls) plus a random sample of larger ones, each "
                "evaluated by Def.tla (definition layer) and replayed through lisp.EVAL in a fresh environment; "
                "compared: outcome kind, value, effect log, final globals x y. distinct = distinct program "
@@ -115,3 +115,17 @@ def gen_and_replay_keep(ck, module, constants, timeout=900):
     vs = ck.replay(r.cases, args=args)
     byid = {v["id"]: v for v in vs}
     return [(c, byid[c["id"]]) for c in r.cases]
+
+
+@check("C03")
+def c03(ck):
+    ck.rule = ("every program of <= MaxSize nodes over the GenC03 grammar (16 leaves incl. raise!/boom!/boom-str!/"
+               "domain error/undefined symbol and thrown objects of every kind, 16 unary, 7 binary, 1 ternary "
+               "try/catch/finally/throw forms) plus a random sample of larger ones; allowed outcome from Def.tla; "
+               "compared: outcome kind, value or thrown object (structural; sentinel class for Go errors), effect "
+               "log (body/handler/finally executions in order), global e after the program")
+    consts = {"MaxSize": 3, "SampleSize": 5, "SampleN": 4000} if ck.quick else \
+             {"MaxSize": 4, "SampleSize": 6, "SampleN": 50000}
+    gen_and_replay(ck, "GenC03", consts, timeout=1500)
+    ck.exhaustive = True
+    ck.extra["bounds"] = consts
